@@ -3,7 +3,6 @@ package mon
 import (
 	"bytes"
 	"fmt"
-	"regexp"
 	"sort"
 	"strings"
 
@@ -65,8 +64,6 @@ func c18Kind(rendered string) string {
 	return rendered
 }
 
-var c18DocRe = regexp.MustCompile(`(?m)^id: `)
-
 func init() {
 	core.Register(&core.Monitor{
 		ID:        "C18",
@@ -80,7 +77,7 @@ func init() {
 			"a search token with no feature behind it (left in the edited world's index by an overwritten value) is not a differing answer",
 			"tag values are strings (the property's quantifier); non-string values on base features are flattened by ModifiedTags and are not generated",
 		},
-		Quick: 300, Thorough: 30000,
+		Quick: 300, Thorough: 20000,
 		Required: []string{"ops", "doc_tag_edits", "doc_features", "exported_remove", "added_path", "added_area", "added_relation", "added_collection",
 			"value_int", "value_float", "value_point", "value_id", "value_list", "value_null", "value_empty", "value_space", "value_multiline", "value_yaml",
 			"plain_edit_on_base", "searchable_edit_on_base", "edit_on_overlay_feature", "dumps_compared"},
